@@ -244,6 +244,10 @@ class ChangeRecorder:
         for file in self._source_files.values():
             file.virtual_write()
 
+    def clear_replacements(self):
+        for file in self._source_files.values():
+            file.replacements.clear()
+
     def dump(self):  # pragma: no cover
         for file in self._source_files.values():
             print("file:", file.filename)
